@@ -772,10 +772,27 @@ def spec_lines(lines, model, spec):
     return [m if s == "NOSPEC" else s for s, m in zip(spec, model)]
 
 
+def gen_nested_args(rnd, quick):
+    """the command form on an argument that is itself an inline call (`tf bech32-decode b32e(0xabcdef)`): the value handed over is the
+    result of the inner call and nothing else of it (no left-over input bytes, no stale string) — every command x every kind of inner result"""
+    inner = ["b32e(0xabcdef)", "b32me(0xabcdef)", "bech32enc(0x00112233445566778899)", "b58ce(0x00112233)", "base58chkenc(0x05" + "11" * 20 + ")", "hex(0xabcd)", "hex(zebra)",
+             "int(0x0102)", "reverse(zebra)", "reverse(0x010203)", "sha256(zebra)", "hash160(0x)", "len(zebra)", "echo(zebra)", "echo(0x0102)", "b32d(b32e(0x0102))",
+             "b58cd(b58ce(0x0102))", "prefix_compact_size(0x0102)", "spk_to_addr(0x0014" + "22" * 20 + ")", "addr_to_spk(spk_to_addr(0x0014" + "22" * 20 + "))", "hex(hex(0xab))",
+             "reverse(hex(0x0102))", "int(hex(0x07))", "b32e(hex(0xabcdef))", "sha256(b32e(0x01))", "jacobi(5)", "add(1,2)", "tagged_hash(a,b)"]
+    names = [n for n, _ in TABLE]
+    cases = []
+    for n in names:
+        for t in inner:
+            if quick and rnd.random() < 0.5 and n not in ("bech32-decode", "base58chk-decode", "echo", "hex", "len", "reverse", "int", "sha256"):
+                continue
+            cases.append((n, [A("other", t, t)]))
+    return cases
+
+
 def run(ctx):
     rnd = random.Random(ctx.seed * 1009 + 14)
     quick = ctx.tier == "quick"
-    structured = gen_regressions() + gen_unary(rnd, quick) + gen_base58(rnd, quick) + gen_bech32(rnd, quick) + gen_arith(rnd, quick) + gen_hashes_keys(rnd, quick)
+    structured = gen_regressions() + gen_unary(rnd, quick) + gen_base58(rnd, quick) + gen_bech32(rnd, quick) + gen_arith(rnd, quick) + gen_hashes_keys(rnd, quick) + gen_nested_args(rnd, quick)
     lines = [tf_line(n, a) for n, a in structured]
     seen = set()
     uniq = []
@@ -793,7 +810,23 @@ def run(ctx):
     ctx.compare("tf-command-model", lines, [canon(x) for x in impl], [canon(x) for x in model], nontrivial=reached)
     # 2. implementation = Lean specification on the observable (bytes shown / rejection)
     tally = {}
-    compare_spec(ctx, "tf-command-spec", lines, impl, model, spec, tally)
+    # decode(encode(x)) = x when the encoder is written inline inside the decoder's argument (independent of model and specification)
+    for l, im in zip(lines, impl):
+        w = l.split(" ")
+        if len(w) == 3 and w[2] != "-":
+            name = bytes.fromhex(w[1]).decode("latin1"); arg = bytes.fromhex(w[2]).decode("latin1")
+            m = re.fullmatch(r"(b32e|b32me|bech32enc|b58ce|base58chkenc)\(0x([0-9a-f]+)\)", arg)
+            if m and ((name == "bech32-decode" and m.group(1) in ("b32e", "b32me", "bech32enc")) or (name == "base58chk-decode" and m.group(1) in ("b58ce", "base58chkenc"))):
+                mo = re.match(r"out=([0-9a-f]*) ", im)
+                shown = bytes.fromhex(mo.group(1)).decode("latin1").strip().split("\n")[-1] if mo else None
+                if shown != m.group(2):
+                    ctx.violation(l, {"stream": "tf-nested-roundtrip", "impl": im, "expected_last_line": m.group(2), "shown": shown,
+                                      "why": "decoding an inline-encoded value does not give the value back"})
+    # (an argument that is itself an inline call is a text to the specification of the command: those lines are compared with the
+    #  model only — stream 1 — and, for the inline functions themselves, by the inline streams below)
+    nested = {tf_line(n, a) for n, a in gen_nested_args(random.Random(0), False)}
+    keep = [i for i, l in enumerate(lines) if l not in nested]
+    compare_spec(ctx, "tf-command-spec", [lines[i] for i in keep], [impl[i] for i in keep], [model[i] for i in keep], [spec[i] for i in keep], tally)
     # 3. the Python oracle as a further voice
     orc = []
     opinions = 0
